@@ -139,6 +139,11 @@ def directed(i):
     from odf.opendocument import OpenDocumentText
     from odf import style, text, meta, dc
     doc = OpenDocumentText()
+    if i == -4:
+        # mixed content: white space before the first, between and after the last child element; a paragraph of blanks only
+        p = text.P(); p.addText(' '); p.addElement(text.Span(text='a')); p.addText(' '); p.addElement(text.Span(text='b')); p.addText('  \n')
+        doc.text.addElement(p); q = text.P(); q.addText('   '); doc.text.addElement(q); h = text.H(outlinelevel=1); h.addElement(text.Span(text='c')); h.addText('\t'); doc.text.addElement(h)
+        return doc
     if i == -3:
         # generators of other applications next to the library's own (neighbours, and one behind another element): all replaced by one
         doc.meta.addElement(meta.Generator(text='Other/1.0')); doc.meta.addElement(meta.Generator(text='Third/2.0'))
@@ -167,7 +172,7 @@ def run(ctx):
     refattrs = set(tuple(x) for x in twin['GenStyleRefs.v']['schema']) | {(STY, 'list-style-name')}
     n = 30 if ctx.quick else 800
     g = schemagen.Gen(ctx.rng, twin['GenGrammar.v'])
-    for i in range(-3, n):
+    for i in range(-4, n):
         doc = directed(i) if i < 0 else g.document()
         before = snapshot(doc)
         case = {'i': i, 'seed': ctx.seed, 'mime': doc.mimetype, 'elements': sum(X.tree_size(before['sections'][a]) for a in SECTS)}
